@@ -95,6 +95,10 @@ func (r *Runner) Evaluate(sc Scenario, pushedPlain map[int]bool) {
 	for _, p := range out.Panics {
 		c.Fail(strings.ToLower(r.Opt.Prop)+"-panic", line, p)
 	}
+	for _, dc := range out.Dead {
+		// no scenario makes a channel inaccessible, so a worker must never stop
+		c.Fail(strings.ToLower(r.Opt.Prop)+"-channel-worker-stopped", line, fmt.Sprintf("the worker of channel %d returned from Run although the channel stayed accessible: its updates are no longer handled; trace: %s", dc, FormatTrace(out.Trace)))
+	}
 	if out.Retries > 0 {
 		c.Count("harness.barrier-resent")
 		c.Note("harness: %d channel barrier(s) re-sent in %s", out.Retries, line)
